@@ -67,6 +67,11 @@ class OptimizeAnalysis:
         self.findings.append(Finding(key, rule, bool(ok), what, self.w(node) if node is not None else None))
         return ok
 
+    def is_results_list(self, e):
+        if isinstance(e, ast.Attribute) and e.attr == "iteration_results" and isinstance(e.value, ast.Name) and e.value.id == self.ret_var:
+            return True
+        return isinstance(e, ast.Name) and e.id in self.results_aliases
+
     def resolve(self, expr, stmt, depth=0):
         """Copy propagation: replace local names in `expr` (evaluated at statement `stmt`) by their unique reaching definitions."""
         import copy
@@ -101,7 +106,15 @@ class OptimizeAnalysis:
                 self.ret_var = st.targets[0].id
         if self.ret_var is None:
             raise AnalysisError("anchor vanished: Graph.optimize does not create an OptimizationResult")
-        for st in fn.body:
+        def top_level(stmts):
+            for st in stmts:
+                yield st
+                if isinstance(st, ast.With):
+                    yield from top_level(st.body)
+                elif isinstance(st, ast.Try):
+                    yield from top_level(st.body)
+                    yield from top_level(st.finalbody)
+        for st in top_level(fn.body):
             if isinstance(st, ast.For) and isinstance(st.iter, ast.Call) and isinstance(st.iter.func, ast.Name) and \
                     st.iter.func.id == "range" and len(st.iter.args) == 1 and isinstance(st.target, ast.Name):
                 if self.main_loop is not None:
@@ -109,6 +122,13 @@ class OptimizeAnalysis:
                 self.main_loop = st
         if self.main_loop is None:
             raise AnalysisError("anchor vanished: Graph.optimize has no top-level `for <i> in range(<n>)` loop")
+        # local aliases of the result list:  results = ret.iteration_results
+        self.results_aliases = set()
+        for st in ast.walk(fn):
+            if isinstance(st, ast.Assign) and len(st.targets) == 1 and isinstance(st.targets[0], ast.Name) and \
+                    isinstance(st.value, ast.Attribute) and st.value.attr == "iteration_results" and \
+                    isinstance(st.value.value, ast.Name) and st.value.value.id == self.ret_var:
+                self.results_aliases.add(st.targets[0].id)
         self.loop_var = self.main_loop.target.id
         self.loop_bound = self.main_loop.iter.args[0]
         # pose-update sweeps: loops whose body stores `<x>.pose`
@@ -141,8 +161,15 @@ class OptimizeAnalysis:
         evs = self.an.effects(callee)
         stores_chi2 = any(e.kind == "AttrStore" and path_str(e.path) == "self._chi2" for e in evs)
         from .effects import is_numjac_perturbation
-        stores_pose = any(e.kind in ("AttrStore", "ElemStore", "MutCall", "AugName") and ".pose" in e.path[1:] and
-                          not is_numjac_perturbation(self.pkg, e) for e in evs)
+        def writes_pose_value(e):
+            sels = list(e.path[1:])
+            if e.kind == "AttrStore":
+                return bool(sels) and sels[-1] == ".pose"
+            # element / in-place writes directly into a pose array: ... .pose [] []
+            while sels and sels[-1] == "[]":
+                sels.pop()
+            return bool(sels) and sels[-1] == ".pose" and e.kind in ("ElemStore", "MutCall", "AugName")
+        stores_pose = any(writes_pose_value(e) and not is_numjac_perturbation(self.pkg, e) for e in evs)
         written, exposed = self_reads_writes(self.pkg, callee)
         return callee, stores_chi2, stores_pose, written, exposed
 
@@ -171,8 +198,7 @@ class OptimizeAnalysis:
                     elif stores_chi2:
                         self.role[n] = ("compute", st, callee)
                 f = c.func
-                if isinstance(f, ast.Attribute) and f.attr == "append" and isinstance(f.value, ast.Attribute) and \
-                        f.value.attr == "iteration_results":
+                if isinstance(f, ast.Attribute) and f.attr == "append" and self.is_results_list(f.value):
                     self.role.setdefault(n, ("append", st))
                 name = f.attr if isinstance(f, ast.Attribute) else (f.id if isinstance(f, ast.Name) else "")
                 if "solve" in name and n not in self.role:
@@ -226,8 +252,7 @@ class OptimizeAnalysis:
         if isinstance(e, ast.Attribute) and isinstance(e.value, ast.Name) and e.value.id in ("self", self.ret_var):
             return "%s.%s" % (e.value.id, e.attr)
         # <ret>.iteration_results[-1] / [-2]: the most recently / previously appended IterationResult object
-        if isinstance(e, ast.Subscript) and isinstance(e.value, ast.Attribute) and e.value.attr == "iteration_results" and \
-                isinstance(e.value.value, ast.Name) and e.value.value.id == self.ret_var:
+        if isinstance(e, ast.Subscript) and self.is_results_list(e.value):
             idx = e.slice
             if isinstance(idx, ast.UnaryOp) and isinstance(idx.op, ast.USub) and isinstance(idx.operand, ast.Constant):
                 return {1: "$last", 2: "$last2"}.get(idx.operand.value)
@@ -235,8 +260,7 @@ class OptimizeAnalysis:
 
     def index_from_loopvar(self, e):
         """<ret>.iteration_results[<loop var> - k] -> ("loopvar", k);  [<loop bound> - k] -> ("bound", k);  else None"""
-        if not (isinstance(e, ast.Subscript) and isinstance(e.value, ast.Attribute) and e.value.attr == "iteration_results"
-                and isinstance(e.value.value, ast.Name) and e.value.value.id == self.ret_var):
+        if not (isinstance(e, ast.Subscript) and self.is_results_list(e.value)):
             return None
         idx = e.slice
         k = 0
@@ -275,10 +299,17 @@ class OptimizeAnalysis:
             callee = role[2]
             w2, _ = self_reads_writes(self.pkg, callee)
             written |= w2
-            tags = {(v, t) for v, t in tags if v != "self._chi2"}
-            tags.add(("self._chi2", "CUR"))
-            if s.pristine:
-                tags.add(("self._chi2", "INIT"))
+            keys = ["self._chi2"]
+            if isinstance(st, ast.Assign) and len(st.targets) == 1 and isinstance(st.value, ast.Call) and self.var_key(st.targets[0]):
+                # x = self.calc_chi2(): the call returns the chi^2 it has just stored
+                cfacts = self.an.get(callee)
+                if cfacts is not None and cfacts.returns and all(path_str(p) == "self._chi2" for p in cfacts.returns):
+                    keys.append(self.var_key(st.targets[0]))
+            for k_ in keys:
+                tags = {(v, t) for v, t in tags if v != k_}
+                tags.add((k_, "CUR"))
+                if s.pristine:
+                    tags.add((k_, "INIT"))
             return s._replace(tags=frozenset(tags), written=frozenset(written))
         if role is not None and role[0] == "sweep":
             new = set()
